@@ -117,6 +117,10 @@ Inductive op :=
                                                             are the snaps it went on with (observed; what they must be:
                                                             refresh_targets below); their hold records are dropped *)
 | AutoFilter (cands selected : list N)                   (* auto-refresh phase 2 (snapsToRefresh): which candidates go on *)
+| SetAllHold (v : option (option Z))                     (* the option core refresh.hold, set through the config: None = unset,
+                                                            Some None = forever, Some (Some t) = an RFC3339 time *)
+| SnapHoldsQuery (snaps sys : list N)                    (* SnapHolds(st, snaps): sys = the snaps reported as held by system *)
+| GateQuery (held : bool)                                (* autoRefresh.isRefreshHeld(): is the auto-refresh not even launched *)
 | Refreshed (s : N)                                      (* link-snap of a refresh: LastRefreshTime(s) := now *)
 | Tick (d : N).                                          (* the clock advances *)
 
@@ -137,6 +141,9 @@ Definition step (st : state) (o : op) : state :=
   | RefreshRefused _ done => mkState (fold_left reset done (st_gating st)) (st_lastref st) (st_now st)
   | RefreshAll _ _ updated => mkState (fold_left reset updated (st_gating st)) (st_lastref st) (st_now st)
   | AutoFilter _ _ => st
+  | SetAllHold _ => st        (* the option is not part of the hold table: see allhold_after below *)
+  | SnapHoldsQuery _ _ => st
+  | GateQuery _ => st
   | Refreshed s => mkState (st_gating st) (fun x => if (x =? s)%N then st_now st else st_lastref st x) (st_now st)
   | Tick d => mkState (st_gating st) (st_lastref st) (st_now st + Z.of_N d)
   | Hook _ _ _ _ => st      (* not primitive: histories with hooks are run with hstep / hrun *)
@@ -183,6 +190,24 @@ Definition held_by_any (st : state) (level : N) (holders : list N) (s : N) : boo
   existsb (fun g => effective st level s g) holders.
 Definition refresh_targets (st : state) (level : N) (holders cands : list N) : list N :=
   filter (fun s => negb (held_by_any st level holders s)) cands.
+
+(* the system-wide hold, option core refresh.hold (effectiveRefreshHold): no operation of the hold table reads or writes
+   it, so its value at any point of a history is the one of the last SetAllHold. all_held: is it in force at time now
+   (forever is computed as now + maxDuration at every look, so it always is). It is consulted in exactly two places:
+   autoRefresh.Ensure does not launch the auto-refresh at all while it is in force (isRefreshHeld), and SnapHolds reports
+   every snap as held by system. updatePlan.filterHeldSnaps, snapsToRefresh and HeldSnaps do NOT look at it: a `snap refresh`
+   of all snaps or of named snaps goes on regardless. *)
+Definition allhold := option (option Z).
+Definition all_held (v : allhold) (now : Z) : bool :=
+  match v with None => false | Some None => true | Some (Some t) => now <? t end.
+Definition allhold_step (v : allhold) (o : op) : allhold := match o with SetAllHold w => w | _ => v end.
+Definition allhold_after (v : allhold) (ops : list op) : allhold := fold_left allhold_step ops v.
+(* the snaps a scheduled auto-refresh goes on with *)
+Definition auto_refresh_targets (v : allhold) (st : state) (holders cands : list N) : list N :=
+  if all_held v (st_now st) then [] else refresh_targets st 0 holders cands.
+(* SnapHolds: is s reported as held by system *)
+Definition snap_holds_system (v : allhold) (st : state) (s : N) : bool :=
+  effective st 1 s system || all_held v (st_now st).
 
 Definition no_holds : gating := fun _ _ => None.
 Definition init_state (lr0 : N -> Z) (now0 : Z) : state := mkState no_holds lr0 now0.
@@ -306,6 +331,13 @@ Fixpoint nlist_eqb (a b : list N) : bool :=
   | _, _ => false
   end.
 (* the observed selection of a refresh of all snaps is the one the model computes *)
+Definition op_consistent_all (v : allhold) (st : state) (o : op) : bool :=
+  match o with
+  | SnapHoldsQuery snaps sys => nlist_eqb sys (filter (snap_holds_system v st) snaps)
+  | GateQuery held => Bool.eqb held (all_held v (st_now st))
+  | _ => true
+  end.
+
 Definition op_consistent (n : N) (st : state) (o : op) : bool :=
   match o with
   | RefreshAll auto cands updated => nlist_eqb updated (refresh_targets st (if auto then 0 else 1)%N (ids n) cands)
@@ -313,19 +345,20 @@ Definition op_consistent (n : N) (st : state) (o : op) : bool :=
   | _ => true
   end.
 
-Fixpoint mismatch_steps (n : N) (st : state) (steps : list obs) : bool :=
+Fixpoint mismatch_steps (n : N) (v : allhold) (st : state) (steps : list obs) : bool :=
   match steps with
   | [] => false
   | o :: r =>
+      let v := allhold_step v (o_op o) in
       let res := op_result st (o_op o) in
       let st' := hstep st (o_op o) in
-      if op_consistent n st (o_op o) && obs_agrees n st' res o then mismatch_steps n st' r else true
+      if op_consistent n st (o_op o) && op_consistent_all v st (o_op o) && obs_agrees n st' res o then mismatch_steps n v st' r else true
   end.
 
 Definition mismatch (c : case) : bool :=
   match c with mkCase n times lr0 now0 steps =>
     let lr := decode_lr times lr0 in
-    mismatch_steps n (init_state (fun x => assoc lr x 0) (tz times now0)) (map (decode_obs times) steps)
+    mismatch_steps n None (init_state (fun x => assoc lr x 0) (tz times now0)) (map (decode_obs times) steps)
   end.
 
 (* ------------------------------------------------------------------ monitor: the property on the observed behaviour.
@@ -339,7 +372,8 @@ Record mon := mkMon {
   m_sys : list (N * (Z * N));       (* snap -> (requested end of the system hold, level) while it must be in force *)
   m_ep : list (N * N * Z);          (* (held, holder) -> start of the current hold episode, kept by the monitor itself *)
   m_held0 : list (N * N);           (* HeldSnaps at both levels as observed after the previous step *)
-  m_held1 : list (N * N)
+  m_held1 : list (N * N);
+  m_all : allhold                   (* the last value given to core refresh.hold *)
 }.
 
 (* the only operations after which the hold record of s by g may be gone: proceed by g, an accepted refresh request for
@@ -454,9 +488,18 @@ Definition monitor_step (n : N) (m : mon) (o : obs) : bool * mon :=
             forallb (fun s => Bool.eqb (mem s selected) (negb (is_held (m_held0 m) s))) cands
             && forallb (fun s => mem s cands) selected
         | _ => true end in
-  (negb (select_ok && vanish_ok && episode_ok && bound_ok (o_held0 o) && bound_ok (o_held1 o) && refuse_ok
+  (* 7. the system-wide hold: while in force the auto-refresh is not launched and every snap is reported held by system;
+        otherwise the gate is open and system is reported exactly for the snaps with a general-level system hold *)
+  let all := allhold_step (m_all m) (o_op o) in
+  let all_ok := match o_op o with
+        | GateQuery held => Bool.eqb held (all_held all now)
+        | SnapHoldsQuery snaps sys =>
+            forallb (fun s => Bool.eqb (mem s sys) (all_held all now || pmem (s, system) (o_held1 o))) snaps
+            && forallb (fun s => mem s snaps) sys
+        | _ => true end in
+  (negb (all_ok && select_ok && vanish_ok && episode_ok && bound_ok (o_held0 o) && bound_ok (o_held1 o) && refuse_ok
          && expiry_ok (o_held0 o) && expiry_ok (o_held1 o) && sys_ok),
-   mkMon tbl lr sys ep (o_held0 o) (o_held1 o)).
+   mkMon tbl lr sys ep (o_held0 o) (o_held1 o) all).
 
 Fixpoint monitor_steps (n : N) (m : mon) (steps : list obs) : bool :=
   match steps with
@@ -469,5 +512,5 @@ Definition monitor_fail (c : case) : bool :=
   match c with mkCase n times lr0 now0 steps =>
     let lr := decode_lr times lr0 in
     forallb (fun o => default_duration (ro_op o)) steps
-    && monitor_steps n (mkMon [] (fun x => assoc lr x 0) [] [] [] []) (map (decode_obs times) steps)
+    && monitor_steps n (mkMon [] (fun x => assoc lr x 0) [] [] [] [] None) (map (decode_obs times) steps)
   end.
